@@ -91,7 +91,7 @@ impl Decider for CmdDecider {
         let is_main = !actor.contains(".w");
         if is_main {
             if self.fault.crash_at == Some(actor_seq) {
-                self.fired = Some(format!("crash@{}", ev.kind));
+                self.fired = Some(format!("crash@{}{}", ev.kind, path_class(&ev.path)));
                 return match self.fault.prefix {
                     Some(p) if ev.kind.ends_with(".data") => Verdict::Prefix(resolve_prefix(p, ev.len)),
                     _ => Verdict::Crash,
@@ -100,7 +100,7 @@ impl Decider for CmdDecider {
             if let Some((k, errno)) = self.fault.io_at
                 && k == actor_seq
             {
-                self.fired = Some(format!("io@{}", ev.kind));
+                self.fired = Some(format!("io@{}{}", ev.kind, path_class(&ev.path)));
                 return Verdict::Fail(errno);
             }
         }
@@ -108,6 +108,31 @@ impl Decider for CmdDecider {
     }
     fn tick(&mut self) -> u64 {
         self.tick_ms
+    }
+}
+
+/// Class of the file a gate concerns (for fault counters and finding keys).
+pub fn path_class(path: &str) -> &'static str {
+    if path.is_empty() {
+        ""
+    } else if path.contains("/.build/cache/") && path.ends_with("manifest.toml") {
+        ":manifest"
+    } else if path.contains("/.build/cache/") {
+        ":blob"
+    } else if path.ends_with("info.toml") {
+        ":info.toml"
+    } else if path.ends_with("test_timings") {
+        ":test_timings"
+    } else if path.contains("/.build/") {
+        ":dot-build"
+    } else if path.ends_with("Veryl.lock") {
+        ":Veryl.lock"
+    } else if path.ends_with(".sv") || path.ends_with(".map") || path.ends_with(".f") {
+        ":output"
+    } else if path.ends_with(".veryl") {
+        ":source"
+    } else {
+        ":other"
     }
 }
 
@@ -153,7 +178,15 @@ pub struct World {
 impl World {
     /// `slot` distinguishes same-length sibling roots ("h", "r", ...).
     pub fn new(project: &Project, tag: &str) -> World {
-        let scratch = Scratch::new(tag);
+        Self::on(project, Scratch::new(tag))
+    }
+
+    /// World at a path that depends on `key` only (exact replays).
+    pub fn at(project: &Project, key: u64) -> World {
+        Self::on(project, Scratch::fixed(key))
+    }
+
+    fn on(project: &Project, scratch: Scratch) -> World {
         let base = scratch.path.join("h");
         let prj = base.join(&project.name);
         let home = base.join("home");
@@ -444,6 +477,20 @@ pub fn compare(hist: &Observed, refr: &Observed, emits: bool) -> Option<(String,
             format!("exit status {:?} but a clean run gives {:?}", hist.exit, refr.exit),
         ));
     }
+    // A run that hits an error stops at the first failing stage (fail-fast), so
+    // which *warnings* have been derived by then is an artefact of evaluation
+    // order (a restored file replays its warnings early, a fresh file derives
+    // them late). Both are true diagnostics; what must agree in a failing run
+    // is the exit status (above) and the errors.
+    let is_err = |b: &String| b.starts_with("Error: ") && !b.contains("veryl check failed");
+    let failing = hist.diags.iter().any(is_err) || refr.diags.iter().any(is_err);
+    let (hd, rd): (Vec<String>, Vec<String>) = if failing {
+        (hist.diags.iter().filter(|b| is_err(b)).cloned().collect(), refr.diags.iter().filter(|b| is_err(b)).cloned().collect())
+    } else {
+        (hist.diags.clone(), refr.diags.clone())
+    };
+    let hist = &Observed { exit: hist.exit, diags: hd, outputs: hist.outputs.clone() };
+    let refr = &Observed { exit: refr.exit, diags: rd, outputs: refr.outputs.clone() };
     if hist.diags != refr.diags {
         let only_h: Vec<&String> = hist.diags.iter().filter(|d| !refr.diags.contains(d)).collect();
         let only_r: Vec<&String> = refr.diags.iter().filter(|d| !hist.diags.contains(d)).collect();
